@@ -138,6 +138,7 @@ type writeMerge struct {
 }
 
 func (db *DB) unlockWrite(overflow bool, merged int, err error) {
+	verifTrace(db.s, "w:unlock", verifB(overflow), int64(merged), verifB(err != nil))
 	for i := 0; i < merged; i++ {
 		db.writeAckC <- err
 	}
@@ -160,6 +161,7 @@ func (db *DB) writeLocked(batch, ourBatch *Batch, merge, sync bool) error {
 		return err
 	}
 	defer mdb.decref()
+	verifTrace(db.s, "w:leader", int64(batch.Len()), int64(batch.internalLen), verifB(merge), verifB(sync))
 
 	var (
 		overflow bool
@@ -182,11 +184,13 @@ func (db *DB) writeLocked(batch, ourBatch *Batch, merge, sync bool) error {
 
 	merge:
 		for mergeLimit > 0 {
+			verifGate(db.s, "w:merge-loop")
 			select {
 			case incoming := <-db.writeMergeC:
 				if incoming.batch != nil {
 					// Merge batch.
 					if incoming.batch.internalLen > mergeLimit {
+						verifTrace(db.s, "w:overflow", int64(incoming.batch.internalLen))
 						overflow = true
 						break merge
 					}
@@ -196,6 +200,7 @@ func (db *DB) writeLocked(batch, ourBatch *Batch, merge, sync bool) error {
 					// Merge put.
 					internalLen := len(incoming.key) + len(incoming.value) + 8
 					if internalLen > mergeLimit {
+						verifTrace(db.s, "w:overflow", int64(internalLen))
 						overflow = true
 						break merge
 					}
@@ -211,6 +216,7 @@ func (db *DB) writeLocked(batch, ourBatch *Batch, merge, sync bool) error {
 				}
 				sync = sync || incoming.sync
 				merged++
+				verifTrace(db.s, "w:merge", int64(merged), verifB(incoming.sync))
 				db.writeMergedC <- true
 
 			default:
@@ -229,10 +235,12 @@ func (db *DB) writeLocked(batch, ourBatch *Batch, merge, sync bool) error {
 
 	// Write journal.
 	if err := db.writeJournal(batches, seq, sync); err != nil {
+		verifTrace(db.s, "w:journal", int64(seq), int64(batchesLen(batches)), verifB(sync), 1)
 		db.unlockWrite(overflow, merged, err)
 		return err
 	}
 
+	verifTrace(db.s, "w:journal", int64(seq), int64(batchesLen(batches)), verifB(sync), 0)
 	// Put batches.
 	for _, batch := range batches {
 		if err := batch.putMem(seq, mdb.DB); err != nil {
@@ -241,8 +249,12 @@ func (db *DB) writeLocked(batch, ourBatch *Batch, merge, sync bool) error {
 		seq += uint64(batch.Len())
 	}
 
+	verifGate(db.s, "w:applied")
+	verifTrace(db.s, "w:publish-begin", int64(db.seq), int64(batchesLen(batches)))
 	// Incr seq number.
 	db.addSeq(uint64(batchesLen(batches)))
+	verifTrace(db.s, "w:publish-end", int64(db.seq))
+	verifGate(db.s, "w:published")
 
 	// Rotate memdb if it's reach the threshold.
 	if batch.internalLen >= mdbFree {
@@ -287,16 +299,20 @@ func (db *DB) Write(batch *Batch, wo *opt.WriteOptions) error {
 	sync := wo.GetSync() && !db.s.o.GetNoSync()
 
 	// Acquire write lock.
+	verifGate(db.s, "w:before-select")
 	if merge {
 		select {
 		case db.writeMergeC <- writeMerge{sync: sync, batch: batch}:
 			if <-db.writeMergedC {
 				// Write is merged.
+				verifTrace(db.s, "w:merged")
 				return <-db.writeAckC
 			}
 			// Write is not merged, the write lock is handed to us. Continue.
+			verifTrace(db.s, "w:handoff")
 		case db.writeLockC <- struct{}{}:
 			// Write lock acquired.
+			verifTrace(db.s, "w:lock")
 		case err := <-db.compPerErrC:
 			// Compaction error.
 			return err
@@ -308,6 +324,7 @@ func (db *DB) Write(batch *Batch, wo *opt.WriteOptions) error {
 		select {
 		case db.writeLockC <- struct{}{}:
 			// Write lock acquired.
+			verifTrace(db.s, "w:lock")
 		case err := <-db.compPerErrC:
 			// Compaction error.
 			return err
@@ -329,16 +346,20 @@ func (db *DB) putRec(kt keyType, key, value []byte, wo *opt.WriteOptions) error 
 	sync := wo.GetSync() && !db.s.o.GetNoSync()
 
 	// Acquire write lock.
+	verifGate(db.s, "w:before-select")
 	if merge {
 		select {
 		case db.writeMergeC <- writeMerge{sync: sync, keyType: kt, key: key, value: value}:
 			if <-db.writeMergedC {
 				// Write is merged.
+				verifTrace(db.s, "w:merged")
 				return <-db.writeAckC
 			}
 			// Write is not merged, the write lock is handed to us. Continue.
+			verifTrace(db.s, "w:handoff")
 		case db.writeLockC <- struct{}{}:
 			// Write lock acquired.
+			verifTrace(db.s, "w:lock")
 		case err := <-db.compPerErrC:
 			// Compaction error.
 			return err
@@ -350,6 +371,7 @@ func (db *DB) putRec(kt keyType, key, value []byte, wo *opt.WriteOptions) error 
 		select {
 		case db.writeLockC <- struct{}{}:
 			// Write lock acquired.
+			verifTrace(db.s, "w:lock")
 		case err := <-db.compPerErrC:
 			// Compaction error.
 			return err
